@@ -820,6 +820,13 @@ func (w *world) memoDiscipline(fd *ast.FuncDecl, recv types.Object, memo, stamp,
 			if w.isStampTest(c, recv, stamp, counter) {
 				return true
 			}
+			// !(stamp != counter)
+			if u, ok := unparen(c).(*ast.UnaryExpr); ok && u.Op == token.NOT {
+				if nb, ok := unparen(u.X).(*ast.BinaryExpr); ok && nb.Op == token.NEQ &&
+					w.isStampTest(&ast.BinaryExpr{X: nb.X, Op: token.EQL, Y: nb.Y}, recv, stamp, counter) {
+					return true
+				}
+			}
 		}
 		return false
 	}
